@@ -147,7 +147,7 @@ def run(ctx):
         {"kind": "filler", "sub": ".", "writes": [[0, 1], [1, 2]]}]))
     for ci, (fmt, eps, sess) in enumerate(plans):
         root = ctx.scratch / f"c06_{ci}"
-        sp.mk(root, fmt=fmt, eps=eps)
+        sp.mk(root, fmt=fmt, eps=eps, hashes=("sha256",))        # (the recovery oracle re-computes sha256 digests)
         committed = {0: [], 1: [], 2: []}
         base = 0
         for si, se in enumerate(sess):
